@@ -90,6 +90,58 @@ def run(rep, tier):
 
     rep.rule("R18.3", "read context: a bound coordinate routes to element_at; both routes pass admit before an element is returned or cached", floor=3)
     read_context_rules(rep, "R18.3", prog)
+    # ------------------------------------------------------------------ R18.4 pushed-down activity filter re-applied at a coordinate
+    rep.rule("R18.4", "a pattern matcher that narrows its candidates by state = active through the (present-time) index re-checks activity against the "
+                      "loaded historical row before it uses the row, on every path taken at a coordinate", floor=4)
+    from lib import valueflow
+
+    def cstrs(f, o):
+        return {x[1].get("str") for x in f.slice_back_op(o) if x[0] == "const" and x[1].get("str") is not None}
+
+    def state_checks(f):
+        out = []
+        for e in f.calls():
+            nm = e.name or ""
+            if re.search(r"PartialEq.*::(eq|ne)$", nm) and len(e.args) >= 2:
+                fl = f.slice_fields(e.args[0]) | f.slice_fields(e.args[1])
+                if "state" in fl and "active" in (cstrs(f, e.args[0]) | cstrs(f, e.args[1])):
+                    out.append(e)
+            elif re.search(r"::is_active$", nm):
+                out.append(e)
+        return out
+    helpers = {f.id for f in prog.fns.values() if "/kql/" in f.file and f.kind != "Closure" and state_checks(f)}
+    ninst = 0
+    for f in prog.fns.values():
+        if "/kql/" not in f.file:
+            continue
+        push = [e for e in f.calls_named(r"eq_field$") if e.args and "state" in cstrs(f, e.args[0])]
+        hist = f.calls_named(r"::is_historical$")
+        loads = f.calls_named(r"Context.*::load$")
+        if not (push and hist and loads):
+            continue
+        ninst += 1
+        rep.saw(f, len(f.events))
+        name = prog.outer_fn(f).path.rsplit("::", 1)[1]
+        checks = state_checks(f) + [e for e in f.calls() if e.cid in helpers or e.rid in helpers]
+        uses = [e.block for e in f.calls_named(r"alloc::vec::Vec::<T, A>::push$") if any(f.can_reach([l_.block], [e.block]) for l_ in loads)]
+        hb = {h.block: h.dest.l for h in hist if not h.dest.p}
+        try:
+            at = valueflow.analyse(f, load_blocks=hb, domain=(0, 1), marks={e.block for e in push}, avoid={c.block for c in checks})
+            bad = []
+            for ub in uses:
+                for envf in at.get(ub, ()):
+                    env = dict(envf)
+                    if env.get(("mark",)) == 1 and any(env.get(("ghost", b)) == 1 for b in hb):
+                        bad.append(ub)
+                        break
+        except RuntimeError:
+            bad = [ub for ub in uses if ub in f.reachable_from([0], avoid={c.block for c in checks})]
+        rep.ob("R18.4", "historical-recheck-of-activity|%s" % name, bool(uses) and bool(checks) and not bad,
+               "at a coordinate the candidates come from the version log, not from the state index: a row can reach the result of %s without "
+               "its state being compared with \"active\" (or is_active / a matcher that does so)" % name,
+               (f.file + ":%d" % f.term(bad[0]).get("ln", f.line)) if bad else f.file + ":%d" % f.line)
+    if ninst < 4:
+        rep.fault("R18.4: only %d matcher(s) with a pushed-down state filter found" % ninst)
     return rep.finish(EXPLAIN)
 
 
